@@ -59,7 +59,14 @@ def gen_call(rng, labs, uni):
 def gen(rng, i, tier):
     uni = rng.choice(['int', 'pool'])
     labs = G.labels(rng, uni, rng.randint(2, 5))
-    return {"obj": [], "calls": [gen_call(rng, labs, uni) for _ in range(rng.choice([1, 1, 2]))]}
+    calls = [gen_call(rng, labs, uni) for _ in range(rng.choice([1, 1, 2]))]
+    if rng.random() < 0.15:
+        # the same condition once more (another weight): the penalty is added again, whatever the model already records
+        again = dict(rng.choice(calls))
+        lam2 = rng.choice([F(1), F(3), F(1, 2)])
+        again["lam"] = [lam2.numerator, lam2.denominator]
+        calls.append(again)
+    return {"obj": [], "calls": calls}
 
 
 def pyop(n):
